@@ -153,7 +153,7 @@ pub fn child_main(seed: u64) -> Option<i32> {
 fn spawn_calls(seed: u64, calls: &[usize]) -> Result<Vec<String>, String> {
     let exe = std::env::current_exe().map_err(|e| e.to_string())?;
     let list = calls.iter().map(|c| c.to_string()).collect::<Vec<_>>().join(",");
-    let out = std::process::Command::new(exe).args(["C18", "--seed", &seed.to_string(), "--worker"]).env("VCHECK_C18_CALLS", &list).env_remove("VCHECK_SLOTS").output().map_err(|e| e.to_string())?;
+    let out = std::process::Command::new(exe).args(["C18", "--seed", &seed.to_string(), "--worker"]).env("VCHECK_C18_CALLS", &list).env_remove("VCHECK_SLOTS").output().map_err(|e| format!("INFRA: cannot start a child process: {e}"))?;
     if !out.status.success() {
         return Err(format!("child ended with {} on calls [{list}]: {}", out.status, String::from_utf8_lossy(&out.stderr).chars().take(300).collect::<String>()));
     }
@@ -251,7 +251,7 @@ fn stress_child(seed: u64, threads: usize) {
 
 fn spawn_stress(seed: u64, threads: usize) -> Result<Vec<Vec<String>>, String> {
     let exe = std::env::current_exe().map_err(|e| e.to_string())?;
-    let out = std::process::Command::new(exe).args(["C18", "--seed", &seed.to_string(), "--worker"]).env("VCHECK_C18_STRESS", threads.to_string()).env_remove("VCHECK_SLOTS").output().map_err(|e| e.to_string())?;
+    let out = std::process::Command::new(exe).args(["C18", "--seed", &seed.to_string(), "--worker"]).env("VCHECK_C18_STRESS", threads.to_string()).env_remove("VCHECK_SLOTS").output().map_err(|e| format!("INFRA: cannot start a child process: {e}"))?;
     if !out.status.success() {
         return Err(format!("stress child ended with {}: {}", out.status, String::from_utf8_lossy(&out.stderr).chars().take(300).collect::<String>()));
     }
@@ -264,6 +264,14 @@ fn spawn_stress(seed: u64, threads: usize) -> Result<Vec<Vec<String>>, String> {
         }
     }
     Ok(res)
+}
+
+/// a child process that cannot even be started is the sandbox's problem, not the library's: inconclusive
+fn infra(e: &str) {
+    if e.starts_with("INFRA:") {
+        eprintln!("C18: {e}");
+        std::process::exit(2);
+    }
 }
 
 #[derive(Debug, Clone, Serialize, Deserialize)]
@@ -310,6 +318,7 @@ pub fn run_c18(cx: &Cx) -> PropResult {
             let got = match spawn_calls(cx.seed, &calls) {
                 Ok(g) => g,
                 Err(e) => {
+                    infra(&e);
                     acc.violation(format!("history {calls:?}: {e}"), json!({"history": {"calls": calls}}));
                     return;
                 }
@@ -354,6 +363,7 @@ pub fn run_c18(cx: &Cx) -> PropResult {
             let reference = match spawn_stress(sseed, 1) {
                 Ok(r) => r,
                 Err(e) => {
+                    infra(&e);
                     acc.violation(format!("single-threaded reference run failed: {e}"), json!({"stress": {"seed": sseed, "threads": 1}}));
                     return;
                 }
@@ -361,6 +371,7 @@ pub fn run_c18(cx: &Cx) -> PropResult {
             let raced = match spawn_stress(sseed, 16) {
                 Ok(r) => r,
                 Err(e) => {
+                    infra(&e);
                     acc.violation(format!("16-thread first-use run failed: {e}"), json!({"stress": {"seed": sseed, "threads": 16}}));
                     return;
                 }
